@@ -4,6 +4,7 @@
 #![allow(clippy::too_many_arguments, clippy::type_complexity)]
 
 pub mod brokersim;
+pub mod clientloop;
 pub mod clientstate;
 pub mod codec;
 pub mod commitlog;
